@@ -93,25 +93,42 @@ def gen(rng, tier):
     return R
 
 
+def _norm(x, depth=0):
+    """Order-insensitive, name-agnostic normal form of the searcher's plain state."""
+    from collections import Counter, deque
+
+    if depth > 6:
+        return repr(type(x))
+    if isinstance(x, (set, frozenset)):
+        return ("set", sorted((_norm(y, depth + 1) for y in x), key=repr))
+    if isinstance(x, Counter):
+        return ("counter", sorted(((_norm(k, depth + 1), v) for k, v in x.items()), key=repr))
+    if isinstance(x, dict):
+        return ("dict", sorted(((_norm(k, depth + 1), _norm(v, depth + 1)) for k, v in x.items()), key=repr))
+    if isinstance(x, (list, tuple, deque)):
+        return [_norm(y, depth + 1) for y in x]
+    if isinstance(x, (int, str, bool, type(None))):
+        return x
+    if isinstance(x, float):
+        return "float"
+    return repr(x)
+
+
 def universe(css):
     cdb = css.classdb
     classes = [(l, repr(cdb.get_class(l)), cdb.label_to_info[l].empty) for l in cdb]
     db = css.ruledb
     if isinstance(db, RuleDBForest):
-        rules = sorted((k.parent, k.children, k.shifts, k.bucket.name) for k in db.table_method._rules)  # pylint: disable=protected-access
+        tm = db.table_method
+        rules = sorted((k.parent, k.children, k.shifts, k.bucket.name) for k in getattr(tm, "_rules", ()))
+        rules.append(("function", sorted(tm.function.items(), key=repr)))
     else:
         rules = sorted(iter(db))
     verified = [l for l in cdb if db.is_verified(l)]
-    q = css.classqueue
-    queue = (
-        list(q.working),
-        sorted(q.next_level.items()),
-        [list(d) for d in q.curr_level],
-        sorted(q.ignore),
-        [(wp.label, tuple(map(repr, wp.strategies)), wp.inferral) for wp in q.staging],
-        list(q.queue_sizes),
-    )
-    done = (sorted(css.tried_to_verify), sorted(css.symmetry_expanded), sorted(css.inferral_expanded))
+    # the queue and the searcher's own bookkeeping: every plain member, whatever it is called
+    queue = _norm({k: v for k, v in vars(css.classqueue).items() if not k.endswith("strategies") and k != "expansion_strats"})
+    skip = ("ruledb", "classdb", "classqueue", "strategy_pack", "func_times", "func_calls", "func_yield")
+    done = _norm({k: v for k, v in vars(css).items() if k not in skip})
     return {"classes": classes, "rules": rules, "verified": verified, "queue": queue, "done": done}
 
 
@@ -179,9 +196,7 @@ def crash_and_twins(sim, R, ctx, inst, on_spec, k_label):
         )
     for key in ("classes", "rules", "verified", "queue", "done"):
         if uni_a[key] != uni_b[key]:
-            da = [x for x in uni_a[key] if x not in uni_b[key]][:3]
-            dbb = [x for x in uni_b[key] if x not in uni_a[key]][:3]
-            raise Violation("C17:twin-universes-differ", f"after {k_label}: final {key} differ: only original {da}, only restored {dbb}")
+            raise Violation("C17:twin-universes-differ", f"after {k_label}: final {key} differ: original {repr(uni_a[key])[:400]} restored {repr(uni_b[key])[:400]}")
     if len(specs_a) != len(specs_b):
         raise Violation("C17:twin-results-differ", f"after {k_label}: {len(specs_a)} vs {len(specs_b)} specifications handed back")
     ctx.stat("twin_pairs")
@@ -241,7 +256,7 @@ def execute(R, ctx):
             crash_points.append(sim.packets)
             ctx.probe("crash_point")
             ctx.probe("db_" + R["config"]["ruledb"])
-            if any(sim.searcher.classqueue.curr_level):
+            if any(getattr(sim.searcher.classqueue, "curr_level", ())):
                 ctx.probe("restart_mid_level")
             if before >= 1 and after >= 1 and res == "spec":
                 nontrivial = True
